@@ -180,7 +180,7 @@ Lemma mem_stable s id e p : inv1 w par s -> inv2 s -> id < nthr s -> step_local 
      (tpc (thr s id) = PClose MDone /\ tkey (thr s id) = Some k /\ tobj (thr s id) = o /\ oclosed (objs s' o) = true)) /\
   (forall k o, tmap s' k = TRes o ->
      tmap s k = TRes o \/ (tpc (thr s id) = RCas /\ tkey (thr s id) = Some k /\ o = nobj s /\
-                            (forall o', tmap s k <> TRes o') /\ objs s' o = new_obj)) /\
+                            (forall o', tmap s k <> TRes o') /\ objs s' o = new_obj /\ nobj s' = S (nobj s))) /\
   nobj s <= nobj s' /\ inp s' = inp s /\ roots s' = roots s /\
   (forall k o, tmap s k = TRes o -> ocyc (objs s o) <> None -> ocyc (objs s' o) <> None \/ oclosed (objs s' o) = true).
 Proof.
@@ -435,6 +435,27 @@ Proof.
 Qed.
 
 
+Lemma pclose_obj s id e p k : inv1 w par s -> tkey (thr s id) = Some k -> tpc (thr s id) = PClose MDone ->
+  step_local w s id = Some e ->
+  oclosed (objs (apply_eff s id e p) (tobj (thr s id))) = true /\
+  ocanc (objs (apply_eff s id e p) (tobj (thr s id))) = tcanc (thr s id).
+Proof.
+  intros Hi Hk Hpc Hl. pose proof (cancelled_false w par s (thr s id) Hi) as Hc.
+  unfold step_local in Hl. cbv zeta in Hl. rewrite Hpc, Hk, Hc, andb_false_r in Hl. inversion Hl; subst e.
+  unfold apply_eff. cbn. rewrite upd_same. split; reflexivity.
+Qed.
+
+Lemma rcas_win s id e k : inv1 w par s -> id < nthr s -> tkey (thr s id) = Some k -> tpc (thr s id) = RCas ->
+  (forall o, tmap s k <> TRes o) -> step_local w s id = Some e ->
+  leaderpc (tpc (e_self e)) = true /\ tobj (e_self e) = nobj s.
+Proof.
+  intros Hi Hid Hk Hpc Hn Hl. pose proof (i_thr _ _ _ Hi id Hid) as Ht.
+  pose proof (t_hold _ _ _ Ht) as Hh. unfold hexp in Hh. rewrite Hpc in Hh. cbn in Hh.
+  unfold step_local in Hl. cbv zeta in Hl. rewrite Hpc, Hk in Hl.
+  destruct (tmap s k) eqn:Et; [| |exfalso; eapply Hn; reflexivity]; inversion Hl; subst e; cbn;
+    destruct (tsync (thr s id)); rewrite ?Hh; cbn; auto.
+Qed.
+
 Lemma inv2_step s id s1 : inv1 w par s -> inv2 s -> step w s id = Some s1 -> inv2 s1.
 Proof.
   intros Hi Hj H. destruct (step_spec _ _ _ _ H) as (Hid & e & p & Hl & -> & Hp).
@@ -493,7 +514,7 @@ Proof.
     - intros o Ho. assert (Hk : tkey (thr s x) <> None).
       { intros Hk. destruct (t_root _ _ _ Htx Hk) as (_ & _ & R & _). rewrite Ho in R. discriminate. }
       destruct (tkey (thr s x)) as [d|] eqn:Ek; [|congruence].
-      destruct (u_waiter _ _ Hu d o eq_refl ltac:(rewrite Ho; reflexivity)) as [A _].
+      destruct (u_waiter _ _ Hu d o Ek ltac:(rewrite Ho; reflexivity)) as [A _].
       destruct (u_cycr _ _ Hu o Ho) as [C|C].
       + apply (Mcyc _ _ A C).
       + right. destruct (Mb _ _ A C) as (C1 & _). congruence.
@@ -508,28 +529,23 @@ Proof.
     + (* the new thread *)
       destruct Tn as [E|(E & j & d & sy & h & Hc)]; [lia|]. assert (x = nthr s) as -> by lia.
       constructor; unfold cur_group, acc_index; rewrite Hc; unfold child_of; cbn; try discriminate; try reflexivity;
-        try (intros; discriminate); try (intros; lia).
-      * intros. constructor.
+        try (intros; discriminate); try (intros; lia); try (intros; constructor).
     + destruct (Nat.eq_dec x id) as [->|Hxi]; [|apply Hother; assumption].
       constructor; unfold cur_group, acc_index; rewrite ?Tself, ?Hgr by assumption; try assumption.
-  - intros k o Hk. destruct (Md _ _ Hk) as [A|(_ & _ & -> & _)]; [pose proof (j_bound _ Hj _ _ A)|]; lia.
-  - intros k o Hk Hcl. destruct (Md _ _ Hk) as [A|(A1 & A2 & A3 & A4 & A5)].
+  - intros k o Hk. destruct (Md _ _ Hk) as [A|(_ & _ & -> & _ & _ & E)]; [pose proof (j_bound _ Hj _ _ A)|]; lia.
+  - intros k o Hk Hcl. destruct (Md _ _ Hk) as [A|(A1 & A2 & A3 & A4 & A5 & A6)].
     + assert (Hcl0 : oclosed (objs s o) = false).
       { destruct (oclosed (objs s o)) eqn:E; [|reflexivity]. destruct (Mb _ _ A E) as (C1 & _). congruence. }
       destruct (j_leader _ Hj _ _ A Hcl0) as (l & Hl1 & Hl2 & Hl3 & Hl4).
       exists l. split; [lia|]. destruct (Nat.eq_dec l id) as [->|Hli].
       * rewrite Tself, Ib. split; [assumption|].
         assert (Hnc : forall m, tpc (thr s id) <> PClose m).
-        { intros m Hm. destruct (Mc _ _ A Hcl0) as [(C1 & _)|(_ & _ & _ & C)]; [|congruence].
-          pose proof (t_mode _ _ _ Htid m (or_intror Hm)) as ->.
-          destruct (step_mem s id e Hi Hid Hl) as [(B1 & B2 & _)|[(k0 & _ & B & _)|[(d & _ & _ & B & _)|[(o0 & path & B & _)|(k0 & B1 & B2 & B3 & B4 & B5 & B6)]]]]; try congruence.
-          - unfold s', apply_eff in Hcl. cbn [objs] in Hcl. rewrite B2 in Hcl. congruence.
-          - unfold s', apply_eff in Hcl. cbn [objs] in Hcl. rewrite B5, Hl4, upd_same in Hcl. discriminate. }
+        { intros m Hm. pose proof (t_mode _ _ _ Htid m (or_intror Hm)) as ->.
+          destruct (pclose_obj s id e p k Hi Hl2 Hm Hl) as [Hco _]. fold s' in Hco. congruence. }
         destruct (L1 Hl3 Hnc ltac:(congruence)) as [Q1 Q2]. split; [assumption|congruence].
       * destruct (Hpco l Hl1 Hli) as (P1 & P2 & _). rewrite Hkey, P1, P2 by assumption. auto.
     + exists id. rewrite Tself, Ib. split; [lia|]. split; [assumption|].
-      destruct (step_mem s id e Hi Hid Hl) as [(B1 & B2 & _)|[(k0 & B1 & B2 & B3 & B4 & B5 & B6 & B7 & B8)|[(d & _ & _ & B & _)|[(o0 & path & B & _)|(k0 & B1 & B2 & _)]]]]; try congruence.
-      split; [assumption|congruence].
+      destruct (rcas_win s id e k Hi Hid A2 A1 A4 Hl) as [Q1 Q2]. split; [assumption|congruence].
   - intros k. destruct (step_mem s id e Hi Hid Hl) as [(B1 & B2 & B3)|[(k0 & B1 & B2 & B3 & B4 & B5 & B6 & B7 & B8)|[(d & B0 & B1 & B2 & B3)|[(o0 & path & B0 & B1 & B3 & B2)|(k0 & B0 & B00 & B1 & B3 & B2 & _)]]]];
       unfold s', apply_eff; cbn [nexec tmap]; rewrite ?B1, ?B3, ?B4, ?B6; try apply (j_nexec _ Hj).
     + unfold upd. destruct (Nat.eqb k k0) eqn:Ek.
@@ -538,14 +554,13 @@ Proof.
     + unfold upd. destruct (Nat.eqb k d) eqn:Ek.
       * apply Nat.eqb_eq in Ek. subst k. rewrite (j_nexec _ Hj d), B0. reflexivity.
       * apply (j_nexec _ Hj).
-  - intros k o Hk Hcl. destruct (Md _ _ Hk) as [A|(A1 & A2 & A3 & A4 & A5)].
+  - intros k o Hk Hcl. destruct (Md _ _ Hk) as [A|(A1 & A2 & A3 & A4 & A5 & A6)].
     + destruct (oclosed (objs s o)) eqn:E.
       * destruct (Mb _ _ A E) as (_ & _ & _ & C4). rewrite C4. apply (j_ocanc _ Hj _ _ A E).
       * destruct (Mc _ _ A E) as [(C1 & _)|(C1 & C2 & C3 & C4)]; [congruence|].
-        destruct (step_mem s id e Hi Hid Hl) as [(B1 & B2 & _)|[(k0 & _ & B & _)|[(d & _ & _ & B & _)|[(o0 & path & B & _)|(k0 & B1 & B2 & B3 & B4 & B5 & B6)]]]]; try congruence.
-        unfold s', apply_eff. cbn [objs]. rewrite B5, <- C3, upd_same. cbn. apply (u_canc _ _ Huid).
+        destruct (pclose_obj s id e p k Hi C2 C1 Hl) as [_ Hcn]. fold s' in Hcn. rewrite <- C3, Hcn. apply (u_canc _ _ Huid).
     + rewrite A5 in Hcl. discriminate.
-  - intros k k' o Hk Hk'. destruct (Md _ _ Hk) as [A|(A1 & A2 & A3 & A4 & A5)]; destruct (Md _ _ Hk') as [A'|(A1' & A2' & A3' & A4' & A5')].
+  - intros k k' o Hk Hk'. destruct (Md _ _ Hk) as [A|(A1 & A2 & A3 & A4 & A5 & A6)]; destruct (Md _ _ Hk') as [A'|(A1' & A2' & A3' & A4' & A5' & A6')].
     + eapply (j_inj _ Hj); eassumption.
     + pose proof (j_bound _ Hj _ _ A). lia.
     + pose proof (j_bound _ Hj _ _ A'). lia.
